@@ -5,11 +5,11 @@ def Cmp.offset : Cmp → BitVec 32 | .Lt => 0 | .Leq => 1
 def mod_lt (a : BitVec 32) (b : BitVec 32) : Bool :=
   decide ((a - b) > ((1 : BitVec 32) <<< (31 : BitVec 32)))
 def mod_leq (a : BitVec 32) (b : BitVec 32) : Bool :=
-  (mod_lt a (b + (1 : BitVec 32)))
+  ((a == b) || (mod_lt a b))
 def mod_gt (a : BitVec 32) (b : BitVec 32) : Bool :=
   (mod_lt b a)
 def mod_geq (a : BitVec 32) (b : BitVec 32) : Bool :=
-  (mod_lt (b - (1 : BitVec 32)) a)
+  ((a == b) || (mod_gt a b))
 def mod_bounded (a : BitVec 32) (ab_cmp : Cmp) (b : BitVec 32) (bc_cmp : Cmp) (c : BitVec 32) : Bool :=
   let a := (a - (Cmp.offset ab_cmp))
   let c := (c + (Cmp.offset bc_cmp))
